@@ -35,7 +35,7 @@ def population(ctx, flavour):
         return (["-nexpr", 30 if q else 300, "-valued", 100], ["-limit", 150 if q else 1500, "-kmax", 7, "-nrandom", 40 if q else 150])
     # general mix
     return (["-corpus", conf.CORPUS, "-nrand", 24 if q else 220, "-nexpr", 6 if q else 60, "-ndp", 4 if q else 40,
-             "-nctx", 8 if q else 80, "-small-max", 3, "-small-slices", 400 if q else 40, "-small-slice", s % (400 if q else 40),
+             "-nctx", 8 if q else 80, "-nopt", 4 if q else 40, "-nring", 3 if q else 30, "-small-max", 3, "-small-slices", 400 if q else 40, "-small-slice", s % (400 if q else 40),
              "-nbig", (1 if q else 5) if ctx.prop in ("C01", "C02", "C06") else 0, "-valued", 60],
             ["-limit", 100 if q else 400, "-nrandom", 24 if q else 100])
 
